@@ -221,6 +221,10 @@ V("O09.1w", ["C09"], "c09_names", expect_verified=7,
 V("O09.3", ["C09", "C10", "C05"], "c09_slots", expect_verified=3,
   functions=["Compiler::compile_expression arm Expr::Identifier", "Compiler::compile_statement arm Stmt::Let", "Compiler::compile_expression arm Expr::Assign"],
   desc="unresolved name -> ReferenceError with nothing emitted; load/store opcode family chosen from the symbol's scope; operand == the symbol's slot; assignment stores then reloads the same slot; element assignment compiles target, index, value in order")
+K("O09.len", ["C09", "C05"], "symbols", "c09_total_len", level="bounded", bound="three scopes of 0..=2 names each", functions=["Context::total_len"],
+  desc="total_len is the sum of the scope lengths (real iterator fold): the contract under which Context::define is verified")
+K("O05.sym", ["C05", "C09"], "symbols", "c05_define_total", functions=["Context::define"],
+  desc="declaring a name is total for EVERY number of names already in the context (symbolic count in the enclosing scopes): slot == count as u16, or an error value and an unchanged context - never a panic")
 K("O09.2", ["C09"], "lib", "c09_eval_order", functions=["eval"],
   desc="eval enters the machine only after parse and compile succeeded (stages replaced by recorders): a compile-time reference error precedes any output")
 
